@@ -932,3 +932,77 @@ func TestC17Exhaustive(t *testing.T) {
 	}
 	col.SetExhaustive(true)
 }
+
+// TestC17UnfundedCheque: the decision takes effect "exactly once, in the invocation that makes the count reach the
+// threshold". If the contract cannot pay at that moment, that invocation cannot have its effect - so it must not
+// count either: it fails as a whole, the ballot keeps the votes it had, and the same vote sent again once the funds
+// are there pays exactly once. What may not happen is a decision that completes (ballot consumed) without payment.
+func TestC17UnfundedCheque(t *testing.T) {
+	theT = t
+	col := ev.New("C17", "unfunded-cheque",
+		"complete enumeration for n=1..6 stored keys x cheque amount {balance+1, 2 x balance} x {re-vote by the same key, vote by the next key} after a deposit: the keys vote up to one below the threshold (judged by the ballot model), the completing vote arrives while the contract holds less GAS than the cheque: it must fail and leave the whole storage and every balance untouched (or, if accepted, have paid in full); then the missing GAS is deposited and a vote inside the 20-block window completes the decision: exactly one Cheque notification, payee paid once, ballot gone; non-trivial = every case",
+		"the arguments of a decision are a function of its id")
+	defer func() { col.Flush(true) }()
+	nshards, shard := envInt("VERIF_NSHARDS", 1), envInt("VERIF_SHARD_INDEX", 0)
+	idx := 0
+	for n := 1; n <= 6; n++ {
+		for _, factor := range []int64{1, 2} {
+			for _, nextKey := range []bool{false, true} {
+				idx++
+				if idx%nshards != shard {
+					continue
+				}
+				h := ev.NewHistory()
+				h.Op("n=%d amount=%d x balance (+1) completing vote after the deposit by the next key=%v", n, factor, nextKey)
+				if !runCase(t, col, h, func() {
+					w := newC17World(n, h)
+					defer w.close()
+					mem := func(i int) neotest.SingleSigner { return w.signerOf(w.m.alphabet[i]) }
+					bal := w.c.GAS(w.neofs)
+					d := w.newDecision("cheque")
+					d.amount = bal*factor + 1
+					d.args = []any{d.id, d.payee, d.amount, []byte("lock-unfunded")}
+					d.desc = fmt.Sprintf("cheque(%d to a payee) with %d on the contract", d.amount, bal)
+					thr := w.m.threshold()
+					vote := func(i int) *chainkit.Outcome {
+						v := w.prepare(d, []neotest.SingleSigner{mem(i)}, fmt.Sprintf("member %d", i))
+						return w.c.InvokeBlock(0, v.tx)[0]
+					}
+					for i := 0; i < thr-1; i++ {
+						v := w.prepare(d, []neotest.SingleSigner{mem(i)}, fmt.Sprintf("member %d", i))
+						w.apply(v, w.c.InvokeBlock(0, v.tx)[0])
+						w.observe("votes below the threshold")
+					}
+					pre := w.c.Snapshot(d.payee, w.neofs)
+					o := vote(thr - 1)
+					h.Op("completing vote by member %d while the contract cannot pay -> %s", thr-1, o)
+					if o.Halt {
+						fail("C17: the vote completing %s was accepted although the contract cannot pay it: the decision is consumed without its effect", d.desc)
+					}
+					if df := chainkit.Diff(pre, w.c.Snapshot(d.payee, w.neofs)); len(df) != 0 {
+						fail("C17: the failed completing vote of %s changed state: %v", d.desc, df)
+					}
+					w.observe("after the failed completing vote")
+					// the funds arrive
+					if o := w.c.Invoke([]neotest.Signer{w.c.Validators}, w.gas, "transfer", w.c.Validators.ScriptHash(), w.neofs, d.amount-bal+gasUnit, nil); !o.Halt {
+						panic(chainkit.HarnessError{Msg: "c17 unfunded: deposit failed: " + o.Fault})
+					}
+					who := thr - 1
+					if nextKey && thr < n {
+						who = thr
+					}
+					v := w.prepare(d, []neotest.SingleSigner{mem(who)}, fmt.Sprintf("member %d, after the deposit", who))
+					w.apply(v, w.c.InvokeBlock(0, v.tx)[0])
+					w.observe("after the funded completing vote")
+					if !h.Has("completed:cheque") {
+						fail("C17: %s was not completed by %d distinct keys once the funds were there", d.desc, thr)
+					}
+					h.NonTrivial()
+				}) {
+					return
+				}
+			}
+		}
+	}
+	col.SetExhaustive(true)
+}
